@@ -219,12 +219,21 @@ EnvOK == ~NoLag \/ CaughtUp
 SubOK == ~QuietSub \/ (notify = <<>> /\ TeeEmpty)
 OrderOK(s) == ~ReorgPrio \/ (slot[s].r = NoR /\ tee.r = NoR /\ \A i \in 1..Len(notify) : notify[i].f # "r")
 
+(* a subscribe request sits between its height read and its registration: only the chain and the
+   synchroniser move there (that is what the gate of the binding reaches) and the goroutines go on;
+   an events subscription admits no Revert there (assumption A2: its historical range would reach
+   into the pre-confirmed chain, which this model does not describe) *)
+InWindow == \E s \in Subs : sub[s].st = "resolved"
+Free == ~InWindow
+WinEnv(kinds) == InWindow /\ Window /\ ~QuietSub /\ \A s \in Subs : sub[s].st = "resolved" => sub[s].kind \in kinds
+
 UNCH_ENV == UNCHANGED <<chain, blk, nTag, nTx, nRev, nL1, nPc, nGw, nRecv, nTick, l1, pc, gw, orph, reorg, notify>>
 UNCH_CHAIN == UNCHANGED <<chain, blk, nTag, nRev, orph, reorg>>
 
 -----------------------------------------------------------------------------
 (* ---- the chain as the synchroniser drives it *)
 Store(content) ==
+  /\ Free \/ (WinEnv({"heads", "events"}) /\ content \in {"empty", "fresh"})
   /\ EnvOK /\ notify = <<>> /\ nTag < MaxTag /\ Len(chain) < MaxLen
   /\ LET t == nTag + 1
          txs == CASE content = "empty" -> <<>>
@@ -246,6 +255,7 @@ Store(content) ==
   /\ UNCHANGED <<nRev, nL1, nPc, nGw, nRecv, nTick, l1, pc, gw, tee, slot, sub, got, open, req>>
 
 Revert ==
+  /\ Free \/ WinEnv({"heads"})
   /\ EnvOK /\ notify = <<>> /\ nRev < MaxReverts /\ Len(chain) > 1
   /\ LET t == chain[Len(chain)] h == Height IN
      /\ chain' = SubSeq(chain, 1, Len(chain) - 1)
@@ -290,7 +300,7 @@ TeeForward(f) ==
   /\ UNCH_ENV /\ UNCHANGED <<sub, got, open, req>>
 
 SetL1(n) ==
-  /\ EnvOK /\ nL1 < MaxL1 /\ n > l1
+  /\ Free /\ EnvOK /\ nL1 < MaxL1 /\ n > l1
   /\ l1' = n /\ nL1' = nL1 + 1 /\ SendOn("l", n)
   /\ act' = [name |-> "SetL1", n |-> n] /\ res' = [kind |-> "ok"]
   /\ UNCHANGED <<chain, blk, nTag, nTx, nRev, nPc, nGw, nRecv, nTick, pc, gw, orph, reorg, notify, sub, got, open, req>>
@@ -298,7 +308,7 @@ SetL1(n) ==
 (* the poller: AdvanceTo(height+1); a full block opens a new round at height+1, a delta appends
    to the current round; what ApplyUpdate returns is published *)
 PcFull(withTx) ==
-  /\ EnvOK /\ nPc < MaxPc /\ (withTx => nTx < MaxTx)
+  /\ Free /\ EnvOK /\ nPc < MaxPc /\ (withTx => nTx < MaxTx)
   /\ pc' = [num |-> Len(chain), rid |-> nPc + 1, txs |-> IF withTx THEN <<nTx + 1>> ELSE <<>>]
   /\ nTx' = IF withTx THEN nTx + 1 ELSE nTx
   /\ nPc' = nPc + 1 /\ SendOn("p", pc')
@@ -306,7 +316,7 @@ PcFull(withTx) ==
   /\ UNCHANGED <<chain, blk, nTag, nRev, nL1, nGw, nRecv, nTick, l1, gw, orph, reorg, notify, sub, got, open, req>>
 
 PcDelta ==
-  /\ EnvOK /\ nPc < MaxPc /\ nTx < MaxTx /\ PcVisible /\ Len(pc.txs) < 2
+  /\ Free /\ EnvOK /\ nPc < MaxPc /\ nTx < MaxTx /\ PcVisible /\ Len(pc.txs) < 2
   /\ pc' = [pc EXCEPT !.txs = Append(@, nTx + 1)]
   /\ nTx' = nTx + 1 /\ nPc' = nPc + 1 /\ SendOn("p", pc')
   /\ act' = [name |-> "PcDelta", num |-> pc.num, rid |-> pc.rid, txs |-> <<nTx + 1>>, base |-> Len(pc.txs)] /\ res' = [kind |-> "ok"]
@@ -314,14 +324,14 @@ PcDelta ==
 
 (* the gateway learns of a transaction (RECEIVED), then schedules it (CANDIDATE) *)
 Gw(t) ==
-  /\ EnvOK /\ nGw < MaxGw /\ gw[t] < CANDIDATE
+  /\ Free /\ EnvOK /\ nGw < MaxGw /\ gw[t] < CANDIDATE
   /\ gw' = [gw EXCEPT ![t] = @ + 1] /\ nGw' = nGw + 1
   /\ act' = [name |-> "Gw", t |-> t, st |-> gw[t] + 1] /\ res' = [kind |-> "ok"]
   /\ UNCHANGED <<chain, blk, nTag, nTx, nRev, nL1, nPc, nRecv, nTick, l1, pc, orph, reorg, notify, tee, slot, sub, got, open, req>>
 
 (* the received-transaction feed (mempool / gateway submission): sent straight on the handler's feed *)
 Recv(t) ==
-  /\ EnvOK /\ nRecv < MaxRecv /\ Ver >= 9
+  /\ Free /\ EnvOK /\ nRecv < MaxRecv /\ Ver >= 9
   /\ slot' = Into(slot, "x", t) /\ nRecv' = nRecv + 1 /\ UNCHANGED nTick
   /\ act' = [name |-> "Recv", t |-> t] /\ res' = [kind |-> "ok"]
   /\ UNCHANGED <<chain, blk, nTag, nTx, nRev, nL1, nPc, nGw, l1, pc, gw, orph, reorg, notify, tee, sub, got, open, req>>
@@ -392,7 +402,7 @@ SubRegister(s) ==
 
 (* ---- the goroutine *)
 Deliver(s) ==
-  /\ Running(s) /\ sub[s].pend # NoFr /\ Len(got[s]) < MaxGot
+  /\ Free /\ Running(s) /\ sub[s].pend # NoFr /\ Len(got[s]) < MaxGot
   /\ got' = [got EXCEPT ![s] = Append(@, sub[s].pend)]
   /\ LET f == sub[s].pend
          r0 == [sub[s] EXCEPT !.pend = NoFr, !.canc = @ \/ (f.k = "status" /\ f.a = L1F)]   \* sub.cancel() after ACCEPTED_ON_L1
@@ -501,46 +511,27 @@ CloseConn(c) ==
   /\ UNCH_ENV /\ UNCHANGED <<tee, got>>
 
 -----------------------------------------------------------------------------
-InWindow == \E s \in Subs : sub[s].st = "resolved"
-Env ==
+Next ==
   \/ \E c \in {"empty", "fresh", "pc", "orph"} : Store(c)
   \/ Revert
   \/ \E n \in 0..(MaxLen - 1) : SetL1(n)
   \/ \E b \in BOOLEAN : PcFull(b)
   \/ PcDelta
-  \/ \E t \in Txs : Gw(t) \/ Recv(t)
-
-Internal ==
+  \/ \E t \in Txs : Gw(t)
+  \/ \E t \in Txs : Recv(t)
   \/ SyncSend
   \/ \E f \in {"h", "r", "p", "l"} : TeeForward(f)
   \/ \E s \in Subs : \E f \in Feeds : Take(s, f)
   \/ \E s \in Subs : Exit(s)
-  \/ Tick \/ TickTimeout
+  \/ Tick
+  \/ TickTimeout
   \/ \E c \in Conns : UnsubDone(c)
-
-Client ==
   \/ \E s \in Subs : Deliver(s)
   \/ \E c \in Conns, s \in Subs : UnsubCall(c, s)
   \/ \E c \in Conns : CloseConn(c)
-
-Subscribe ==
   \/ \E s \in Subs, c \in Conns, kind \in Kinds, bid \in BlockIds, flt, fl2, flp, flr \in BOOLEAN, tx \in 0..MaxTx :
         SubResolve(s, c, kind, bid, flt, fl2, flp, flr, tx)
   \/ \E s \in Subs : SubRegister(s)
-
-(* inside the window between the height read and the registration only the chain and the
-   synchroniser's sends move (that is what the gate of the binding reaches); an events subscription
-   admits no Revert there (assumption A2: the historical range then reaches into the pre-confirmed
-   chain, which this model does not describe) *)
-WindowEnv ==
-  /\ Window /\ ~QuietSub /\ (\A s \in Subs : sub[s].st = "resolved" => sub[s].kind \in {"heads", "events"})
-  /\ \/ \E c \in {"empty", "fresh"} : Store(c)
-     \/ (\A s \in Subs : sub[s].st = "resolved" => sub[s].kind = "heads") /\ Revert
-
-Next ==
-  IF InWindow
-  THEN (\E s \in Subs : SubRegister(s)) \/ WindowEnv \/ Internal
-  ELSE Env \/ Internal \/ Client \/ Subscribe
 
 Spec == Init /\ [][Next]_vars
 
